@@ -34,6 +34,8 @@ def one(name, note, also):
                 res = json.load(open(os.path.join(tmp, "result.json")))
             except Exception:  # noqa
                 out.append("%s/%s: no result" % (name, pid)); continue
+            if "confirmed" not in res:
+                out.append("%s/%s: patch does not apply to /repo HEAD" % (name, pid)); continue
             head = subprocess.run("git -C /repo rev-parse --short HEAD", shell=True, capture_output=True, text=True).stdout.strip()
             vh = subprocess.run("git -C %s rev-parse --short HEAD" % VERIF, shell=True, capture_output=True, text=True).stdout.strip()
             meta.setdefault("retests", []).append({
